@@ -195,6 +195,20 @@ func (m *Machine) hbMem(key interface{}, write, atomic bool) {
 	}
 }
 
+// The Go race detector treats close(ch) as a write and a send on ch as a read of the channel
+// itself (runtime.closechan / chansend), so a send that is not ordered with the close is a race.
+type hbChanKey struct{ c *Chan }
+
+func (m *Machine) hbChanAccess(g *G, c *Chan, write bool) {
+	if m.hb == nil || c == nil || c.timer {
+		return
+	}
+	cur, pos := m.cur, m.lastPos
+	m.cur, m.lastPos = g, g.pos
+	m.hbMem(hbChanKey{c}, write, false)
+	m.cur, m.lastPos = cur, pos
+}
+
 func hbKeyOf(addr Value) interface{} {
 	switch p := addr.(type) {
 	case SlotPtr:
